@@ -1,0 +1,21 @@
+//go:build verif
+
+package io
+
+import "io"
+
+// Verification hook (add-only, compiled only with -tags verif):
+// a FileStream over an arbitrary reader, so that the read chunking can be scripted.
+
+// DefaultReadBlock - the block size FileStream.ReadAll asks for
+const DefaultReadBlock = defaultReadBlock
+
+// NewFileStreamFromReader - same state as NewFileStream, reader injected
+func NewFileStreamFromReader(r io.Reader) *FileStream {
+	return &FileStream{
+		reader:    r,
+		encBuffer: []byte{},
+		path:      "<reader>",
+		hasRead:   false,
+	}
+}
